@@ -7,6 +7,7 @@ symbol payloads, what get_by_uuid answers for every UUID of the message, and
 whether that node is attached) must agree."""
 import core
 import fault_stream as fs
+import irdump
 import irgen
 import msg_stream as ms
 
@@ -192,6 +193,8 @@ def run(ctx, n_files=None):
     rng = ctx.rng
     hdr = b"GTIRB\0\0" + bytes([gtirb.version.PROTOBUF_VERSION])
     tie = ms.CheckedTie(ctx, "loader", "loader", flush_at=150)
+    # the same through the Lean function `Loader.skelOf` (message -> skeleton)
+    tie_m = ms.CheckedTie(ctx, "msg", "loadm", flush_at=150)
     for fno in range(n_files or ctx.scale(20, 200)):
         gen = irgen.Gen(gtirb, rng, rng.choice([0.3, 0.6]))
         ir0 = gen.build()
@@ -226,4 +229,8 @@ def run(ctx, n_files=None):
                 return a == "exc:AttributeError"
             tie.add_checked("file %d %s" % (fno, what),
                             ["load " + " ".join(toks)], [obs], cb)
+            tie_m.add_checked("file %d %s" % (fno, what),
+                              ["loadm " + " ".join(irdump.dump_mir(m2, sort=False))],
+                              [obs], cb)
     tie.flush()
+    tie_m.flush()
